@@ -168,7 +168,90 @@ def static_programs(tier):
                 mode = "seeds" if "seeds" in (a[3], b[3]) else ("lattice" if "lattice" in (a[3], b[3]) else "exact")
                 text = f"x = {a[2]}\ny = {b[2]}\nparam a = Uniform(x, y)\nparam b = (y, x)\nego = new Object with foo Uniform(y, 0)\n"
                 progs.append((f"pair/{a[0]}+{b[0]}", "pair", text, mode, {}))
+    cross = cross_programs(tier)
+    if tier == "quick":  # each program costs three compilations: the quick tier keeps one of each shape
+        keep = ("x_behav2_dd", "x_behav3_dru", "x_behav4_dddd", "x_behav6_dddddd", "x_behav_two", "x_monitor3", "x_req3", "x_mix6")
+        cross = [p for p in cross if p[0] in keep]
+    progs.extend(cross)
     return [(i,) + p for i, p in enumerate(progs)]
+
+
+# ---------------------------------------------------------------------------------
+# cross-compilation programs: random module-level globals reached only through behaviours /
+# monitors / requirements / params.  The encoding stores values in dependency order only, so
+# these are the programs where two compilations of the same text could disagree on the order.
+# Globals have disjoint ranges (gi in [10i, 10i+1]) so that any permutation is visible.
+# opts: sim = steps to simulate the decoded scene (and replay a recording) and compare actions;
+#       recheck = the decoded sample must still satisfy the program's requirements
+# ---------------------------------------------------------------------------------
+
+_G_KINDS = {
+    "d": lambda i: f"DiscreteRange({10 * i}, {10 * i + 1})",
+    "r": lambda i: f"Range({10 * i}, {10 * i + 1})",
+    "u": lambda i: f"Uniform({10 * i}, {10 * i + 1})",
+    # single-outcome versions (still random values as far as the encoding is concerned): they keep
+    # the number of scenes of the quick tier small
+    "D": lambda i: f"DiscreteRange({10 * i}, {10 * i})",
+    "U": lambda i: f"Uniform({10 * i})",
+}
+
+
+def _globals(kinds):
+    return "".join(f"g{i} = {_G_KINDS[k](i)}\n" for i, k in enumerate(kinds, start=1))
+
+
+def _behavior(names, name="B"):
+    return f"behavior {name}():\n" + "".join(f"    take probe.Act({n})\n" for n in names)
+
+
+def _monitor(names):
+    return "monitor M():\n    while True:\n" + "".join(f"        probe.ev({n})\n" for n in names) + "        wait\nrequire monitor M()\n"
+
+
+def cross_programs(tier):
+    P = "import verif_probe as probe\n"
+    EGO = "ego = new Object with name 'e', with behavior B\n"
+    progs = []
+
+    def add(name, feat, text, mode, **opts):
+        progs.append((f"x_{name}", feat, text, mode, opts))
+
+    def mode_of(kinds):
+        return "lattice" if "r" in kinds else "exact"
+
+    q = tier == "quick"
+    K = (lambda quick, full: quick if q else full)  # kinds per tier
+
+    def names(kinds):
+        return [f"g{i}" for i in range(1, len(kinds) + 1)]
+
+    # only behaviours: 2..6 globals, same kind (clean permutation) and mixed kinds
+    behav = [(K("dD", "dd"), 4), (K("Dr", "dr"), 3), (K("DrU", "dru"), 4), (K("DDdD", "dddd"), 5), (K("DUDuD", "dudud"), 6), (K("DDDDDd", "dddddd"), 7)]
+    if not q:
+        behav += [("rr", 3), ("uu", 3), ("ddd", 4), ("rud", 4), ("uddu", 5), ("ddddd", 6), ("rdudd", 6), ("uuuuuu", 7)]
+    for kinds, steps in behav:
+        add(f"behav{len(kinds)}_{kinds.lower()}", "behavior-globals", P + _globals(kinds) + _behavior(names(kinds)) + EGO, mode_of(kinds), sim=steps)
+    # behaviour uses them in another order than they are defined, two behaviours, unused global
+    add("behav_rev", "behavior-globals", P + _globals(K("DdD", "ddd")) + _behavior(["g3", "g1"]) + EGO, "exact", sim=3)
+    add("behav_two", "behavior-globals", P + _globals(K("DUdD", "dudd")) + _behavior(["g1", "g3"]) + _behavior(["g4", "g2"], "C") + EGO + "new Object at (0, 10, 0), with name 'f', with behavior C\n", "exact", sim=3)
+    # only a monitor
+    add("monitor3", "monitor-globals", P + _globals(K("DUd", "dud")) + _monitor(["g1", "g2", "g3"]) + "behavior B():\n    while True:\n        wait\n" + EGO, "exact", sim=2)
+    # only requirements (with and without a behaviour in the module)
+    reqs = lambda ks: "".join(f"require {10 * i - 1} < g{i} < {10 * i + 2}\n" for i in range(1, len(ks) + 1))
+    add("req3", "requirement-globals", _globals(K("Ddd", "ddd")) + reqs("ddd") + "ego = new Object\n", "exact", recheck=True)
+    add("req3_behav", "requirement-globals", P + _globals(K("DUd", "dud")) + reqs("dud") + "behavior B():\n    take probe.Act('x')\n" + EGO, "exact", recheck=True, sim=2)
+    # only params
+    add("par3", "param-globals", _globals(K("dUD", "dud")) + "param a = g3\nparam b = g1\nparam c = (g2, g1)\nego = new Object\n", "exact")
+    add("par3_behav", "param-globals", P + _globals(K("DUd", "dud")) + "param a = g3\nparam b = g1\nparam c = g2\nbehavior B():\n    take probe.Act('x')\n" + EGO, "exact", sim=2)
+    # mixtures: g1 behaviour, g2 requirement, g3 param, g4 behaviour + param, g5 monitor, g6 object property
+    mix = (P + _globals(K("DDdUDD", "dddudd")) + "require 19 < g2 < 22\nparam a = g3\nparam b = g4\n" + _monitor(["g5"]) + _behavior(["g4", "g1"])
+           + "ego = new Object with name 'e', with foo g6, with behavior B\n")
+    add("mix6", "mixed-globals", mix, "exact", sim=3, recheck=True)
+    add("mix4", "mixed-globals", P + _globals(K("DrUD", "drud")) + "require g2 > 0\nparam a = g4\n" + _behavior(["g3", "g1", "g2"]) + EGO, "lattice", sim=4, recheck=True)
+    if tier != "quick":
+        add("mix5_derived", "mixed-globals", P + _globals("ddddd") + "h = g1 + g2\nparam a = h\n" + _behavior(["g5", "g3", "h", "g4"]) + EGO, "exact", sim=5)
+        add("req_behav_order", "mixed-globals", P + _globals("dddd") + "require g4 > 0\nrequire g2 > 0\n" + _behavior(["g1", "g2", "g3", "g4"]) + EGO, "exact", sim=5, recheck=True)
+    return progs
 
 
 # ---------------------------------------------------------------------------------
